@@ -89,6 +89,7 @@ struct switchcase {
 
 struct func {
 	struct decl *decl, *namedecl;
+	bool nameused;
 	char *name;
 	struct value *paramtemps;
 	struct type *type;
@@ -98,6 +99,9 @@ struct func {
 };
 
 static const int ptrclass = 'l';
+
+/* function being translated */
+static struct func *curfunc;
 
 void
 switchcase(struct switchcases *cases, unsigned long long i, struct block *b)
@@ -522,6 +526,8 @@ mkfunc(struct decl *decl, char *name, struct type *t, struct scope *s)
 	f->type = t;
 	f->start = f->end = mkblock("start");
 	f->lastid = 0;
+	f->nameused = false;
+	curfunc = f;
 	mapinit(&f->gotos, 8);
 	emittype(t->base);
 
@@ -575,6 +581,7 @@ delfunc(struct func *f)
 	struct inst **inst;
 
 	checklabels(f);
+	curfunc = NULL;
 	while (b = f->start) {
 		f->start = b->next;
 		arrayforeach (&b->insts, inst)
@@ -689,6 +696,15 @@ funcgoto(struct func *f, char *name)
 	return g;
 }
 
+static void
+emitfuncname(struct func *f)
+{
+	fputs("data ", stdout);
+	emitname(f->namedecl->value);
+	printf(" = { b \"%s\", b 0 }\n", f->name);
+	f->namedecl = NULL;
+}
+
 static struct lvalue
 funclval(struct func *f, struct expr *e)
 {
@@ -704,12 +720,8 @@ funclval(struct func *f, struct expr *e)
 		d = e->u.ident.decl;
 		if (d->kind != DECLOBJECT && d->kind != DECLFUNC)
 			error(&tok.loc, "identifier '%s' is not an object or function", d->name);
-		if (d == f->namedecl) {
-			fputs("data ", stdout);
-			emitname(d->value);
-			printf(" = { b \"%s\", b 0 }\n", f->name);
-			f->namedecl = NULL;
-		}
+		if (d == f->namedecl)
+			emitfuncname(f);
 		lval.addr = d->value;
 		break;
 	case EXPRSTRING:
@@ -1405,6 +1417,8 @@ dataitem(struct expr *expr, unsigned long long size)
 		decl = expr->u.ident.decl;
 		if (decl->kind == DECLOBJECT && decl->u.obj.storage != SDSTATIC)
 			error(&tok.loc, "initializer is not a constant expression");
+		if (curfunc && decl == curfunc->namedecl)
+			curfunc->nameused = true;
 		emitname(decl->value);
 		break;
 	case EXPRBINARY:
@@ -1534,4 +1548,7 @@ emitdata(struct decl *d, struct init *init)
 	if (offset < d->type->size)
 		printf("z %llu ", d->type->size - offset);
 	puts("}");
+	/* __func__ referenced by the initializer of a static object */
+	if (curfunc && curfunc->nameused && curfunc->namedecl)
+		emitfuncname(curfunc);
 }
